@@ -303,6 +303,8 @@ RULE_CLASS = {'state': 'read', 'statistic': 'read', 'version/send': 'read', 'ver
 C16_STATES = ['PREBOOT', 'CONNECT', 'OPENSENT', 'OPENCONFIRM', 'ESTABLISHED', 'IDLE_CLOSING', 'IDLE_HOLD', 'STOPPED']
 METHODS = ['GET', 'POST', 'PUT', 'DELETE', 'HEAD']
 CREDS = ['none', 'baduser', 'badpass', 'good']
+# further shapes of invalid credentials (issued for one body per rule, with the methods the rule has)
+CREDS_MORE = ['baduser-empty', 'gooduser-empty', 'emptyuser', 'empty-both', 'swapped', 'case', 'garbage', 'nocolon']
 BIN_UPDATE = wire.simple_update(prefixes=((24, b'\x0a\x07\x07'),), asns=(65001,), asn4=True)
 
 
@@ -335,7 +337,12 @@ def bodies_for(rule):
                 ('empty', {}, dict(u, etype='UPDATE'))]
     if rule == 'send/route-refresh':
         return [('ipv4', {'afi': 1, 'safi': 1}, dict(u, valid=True, etype='RR')), ('unsupported-family', {'afi': 2, 'safi': 1}, dict(u, etype='RR')),
-                ('no-afi', {'safi': 1}, dict(u, etype='RR'))]
+                ('no-afi', {'safi': 1}, dict(u, etype='RR')),
+                ('ipv4-res255', {'afi': 1, 'safi': 1, 'res': 255}, dict(u, valid=True, etype='RR')),
+                # a reserved field that does not fit one octet cannot be encoded: the request must fail without any effect
+                ('ipv4-res256', {'afi': 1, 'safi': 1, 'res': 256}, dict(u, etype='RR')), ('ipv4-res-neg', {'afi': 1, 'safi': 1, 'res': -1}, dict(u, etype='RR')),
+                ('ipv4-res-text', {'afi': 1, 'safi': 1, 'res': 'x'}, dict(u, etype='RR')), ('afi-huge', {'afi': 65536, 'safi': 1}, dict(u, etype='RR')),
+                ('safi-huge', {'afi': 1, 'safi': 256}, dict(u, etype='RR'))]
     if rule == 'send/bin_update':
         return [('update-hex', {'binary_data': BIN_UPDATE.hex()}, dict(u, valid=True, etype='UPDATE', nln=1, ats=[1, 2, 3])),
                 ('odd-length', {'binary_data': 'abc'}, dict(u, etype='UPDATE')), ('nothing', {}, dict(u, etype='UPDATE'))]
@@ -394,7 +401,8 @@ def c16_jobs(tier, seed):
             for rule in rules:
                 for (bname, body, rq) in bodies_for(rule):
                     for method in METHODS:
-                        for cred in CREDS:
+                        for cred in CREDS + (CREDS_MORE if (method in ('GET', 'POST') and state in ('ESTABLISHED', 'CONNECT', 'STOPPED')
+                                                            and wcfg['las'] != wcfg['ras']) else []):
                             if tier == 'quick' and wcfg['las'] == wcfg['ras'] and not (rule.startswith('send/') and cred == 'good' and state == 'ESTABLISHED'):
                                 continue
                             if cred != 'good' and bname not in ('announce', 'ipv4', 'update-hex', 'none', 'lookup'):
